@@ -110,6 +110,18 @@ func RegisterRelayers(on *Chain, ctx sdk.Context, forChain string, names ...stri
 	}
 }
 
+// RegisterRelayersAs registers the named accounts for chain forChain under the given counterparty address (additively).
+func RegisterRelayersAs(on *Chain, ctx sdk.Context, forChain, addr string, names ...string) {
+	for _, n := range names {
+		a := on.Accounts[n]
+		chains, addrs := []string{}, []string{}
+		if ir, ok := on.App.XIBCKeeper.ClientKeeper.GetRelayer(ctx, a.Acc.String()); ok {
+			chains, addrs = ir.Chains, ir.Addresses
+		}
+		on.App.XIBCKeeper.ClientKeeper.RegisterRelayers(ctx, a.Acc.String(), append(chains, forChain), append(addrs, addr))
+	}
+}
+
 // DeployERC20From deploys the repository's ERC20MinterBurnerDecimals with `from` as deployer (keeper call).
 func DeployERC20From(c *Chain, ctx sdk.Context, from common.Address, name string) common.Address {
 	ctor, err := erc20contracts.ERC20MinterBurnerDecimalsContract.ABI.Pack("", name, name, uint8(18))
